@@ -182,17 +182,18 @@ def eval_case(case):
             finds = report.JsonReport(json.loads(r.out)).findings()
         else:
             finds = report.TextReport(r.out).findings()
-        got = got_notes(finds, cat, name)
+        disp = name.encode('latin-1').decode('utf-8', 'replace') if any(ord(ch) > 127 for ch in name) else name      # (names travel as latin-1 strings of their bytes; the report shows them decoded)
+        got = got_notes(finds, cat, disp)
         views[view] = got
         n_occ = lists[cat].count(name)
         if n_occ > 1:
             # every occurrence must carry the same notes: compare the per-occurrence notes one by one
             if view == 'text':
-                occ = [a for a in report.TextReport(r.out).algs.get(cat, []) if a['name'] == name]
-                per = [got_notes([(cat, name, sev, t) for sev, t in a['notes']], cat, name) for a in occ]
+                occ = [a for a in report.TextReport(r.out).algs.get(cat, []) if a['name'] == disp]
+                per = [got_notes([(cat, disp, sev, t) for sev, t in a['notes']], cat, disp) for a in occ]
             else:
-                occ = [e for e in json.loads(r.out).get(cat, []) if e['algorithm'] == name]
-                per = [got_notes([(cat, name, sev, t) for sev in ('fail', 'warn', 'info') for t in e['notes'].get(sev, [])], cat, name) for e in occ]
+                occ = [e for e in json.loads(r.out).get(cat, []) if e['algorithm'] == disp]
+                per = [got_notes([(cat, disp, sev, t) for sev in ('fail', 'warn', 'info') for t in e['notes'].get(sev, [])], cat, disp) for e in occ]
             if len(per) != n_occ or any(p != per[0] for p in per):
                 fails.append(['occurrences-of-one-name-rated-differently-%s' % view, '%s %r x%d: %r' % (cat, name, n_occ, per)])
             got = per[0] if per else got
@@ -203,7 +204,7 @@ def eval_case(case):
         for c2 in CATS:
             if c2 != cat and name in lists[c2]:
                 w2 = ref_notes(db, c2, name)
-                g2 = got_notes(finds, c2, name)
+                g2 = got_notes(finds, c2, disp)
                 if w2 is None:
                     if not any('unknown algorithm' in t for sev in ('fail', 'warn') for t in g2[sev]):
                         fails.append(['unknown-name-not-flagged-in-second-category-%s' % view, '%s %r also in %s: notes there %r' % (cat, name, c2, dict(g2))])
@@ -248,12 +249,15 @@ def build_case(cat, name, role, pos, neigh):
 
 def strat_scan():
     def build(t):
-        cat, idx, role, pos, nk, nh, ne, nm, kind, gss, unk, ugss = t
+        cat, idx, role, pos, nk, nh, ne, nm, kind, gss, unk, ugss, edges = t
+        edge = edges[CATS.index(cat)]
         names = gens.db_names(cat)
         if kind == 'gss':
             cat, name = 'kex', gss
         elif kind == 'unknown-gss':
             cat, name = 'kex', ugss        # looks like a GSS key exchange but matches no family of the table
+        elif kind == 'unknown-edge':
+            name = edge        # a database name with a non-ASCII blank at one end: a different, unknown name
         elif kind == 'unknown-terrapin-shape':
             # a name the table does not know, of a shape the Terrapin rule speaks about, in a context where the rule bites
             shapes = [('enc', 'chacha20-poly1305@example.com'), ('enc', 'kuznyechik-cbc'), ('mac', 'hmac-foo-etm@openssh.com'), ('enc', 'foo256-cbc'), ('mac', 'umac-256-etm@openssh.com'), ('enc', 'chacha20-poly1305-v2@openssh.com')]
@@ -278,7 +282,8 @@ def strat_scan():
         return case
     nl = lambda c: st.lists(st.sampled_from(gens.db_names(c)), min_size=0, max_size=5, unique=True)
     return st.tuples(st.sampled_from(CATS), st.integers(0, 10000), st.sampled_from(['server', 'server', 'client']), st.integers(0, 5), nl('kex'), nl('key'), nl('enc'), nl('mac'),
-                     st.sampled_from(['db'] * 6 + ['gss', 'gss', 'unknown', 'unknown-gss', 'unknown-terrapin-shape']), gens.gss_name(), gens.unknown_name(20).filter(lambda s: not s.startswith('gss-')), gens.unknown_gss_name()).map(build)
+                     st.sampled_from(['db'] * 6 + ['gss', 'gss', 'unknown', 'unknown-gss', 'unknown-terrapin-shape', 'unknown-edge']), gens.gss_name(), gens.unknown_name(20).filter(lambda s: not s.startswith('gss-')), gens.unknown_gss_name(),
+                     st.tuples(*[gens.utf8_edge_name(c) for c in CATS])).map(build)
 
 
 def valid_case(case):
